@@ -331,7 +331,8 @@ VP_SCENARIOS (c01_ifelse, N_IFELSE)
 // ------------------------------------------------------------------ SUBX keep=1: (input, S)
 // result = input stack + the top value of each sub-result
 #define N_ONE (NIN * ipow (VP_MAXC + 1, VP_T))
-VP_SCENARIOS (c01_subx, N_ONE)
+template <bool SCRAMBLE> static inline void
+h_subx (uint64_t k)
 {
   cfgdec d {k};
   layout l;
@@ -341,6 +342,8 @@ VP_SCENARIOS (c01_subx, N_ONE)
   auto origin = std::make_shared <op_origin> (l);
   auto s = std::make_shared <S_map> (l, origin);
   s->configure (d, VP_T, VP_MAXC);
+  s->m_scramble = SCRAMBLE;
+  s->m_junk = nd_tok ();
   for (unsigned i = in.n; i < VP_T; ++i)
     if (s->m_cnt[i] != 0)
       in.valid = false;
@@ -386,6 +389,10 @@ VP_SCENARIOS (c01_subx, N_ONE)
     vp_assert (got[i] == s->m_cnt[i], "subx: one result per sub-result for every input");
   x->state_des (sc);
 }
+
+VP_SCENARIOS (c01_subx, N_ONE) { h_subx<false> (k); }
+// the sub-expression also overwrites the slot below its result: the caller's stack must not notice
+VP_SCENARIOS (c01_subx_mut, N_ONE) { h_subx<true> (k); }
 
 // ------------------------------------------------------------------ CAPTURE: [S]
 VP_SCENARIOS (c01_capture, N_ONE)
